@@ -493,17 +493,15 @@ def cholesky_band(l, mininf=0.0):
         lower = cholesky_banded(l[:, 0:n], lower=True)
     except LinAlgError:
         #
-        # Figure out where the error is.
+        # Figure out where the error is: the first leading sub-matrix
+        # that is not positive definite.
         #
-        lower = l.copy()
-        kn = bw - 1
-        spot = np.arange(kn, dtype='i4') + 1
         for j in range(n):
-            lower[0, j] = np.sqrt(lower[0, j])
-            lower[spot, j] /= lower[0, j]
-            x = lower[spot, j]
-            if not np.all(np.isfinite(x)):
-                warn('NaN found in cholesky_band.', PydlutilsUserWarning)
+            try:
+                lower = cholesky_banded(l[:, 0:j+1], lower=True)
+            except LinAlgError:
+                warn('Matrix is not positive definite at column {0:d}.'.format(j),
+                     PydlutilsUserWarning)
                 return (j, l)
     #
     # Restore padding.
